@@ -136,6 +136,43 @@ func rawInputCases(name string, raw []byte, reg world.Regions, pairs bool) []raw
 	return out
 }
 
+// sizeWalk enumerates, without materialising the inputs, every value of every 16-bit size/type field
+// and, for the 32-bit ones, every value up to the input length plus 64 and the 64 values below 2^32
+// (a bound computed from a combination of fields is only off for a handful of values of one of them).
+type sizeWalkCase struct {
+	f sizeField
+	v uint32
+}
+
+func sizeWalk(raw []byte, reg world.Regions) []sizeWalkCase {
+	var out []sizeWalkCase
+	for _, f := range sizeFields(raw, reg) {
+		if f.width == 2 {
+			for v := 0; v < 1<<16; v++ {
+				if uint32(v) != f.exact {
+					out = append(out, sizeWalkCase{f, uint32(v)})
+				}
+			}
+			continue
+		}
+		for v := 0; v <= len(raw)+64; v++ {
+			if uint32(v) != f.exact {
+				out = append(out, sizeWalkCase{f, uint32(v)})
+			}
+		}
+		for k := uint32(0); k < 64; k++ {
+			out = append(out, sizeWalkCase{f, 0xffffffff - k})
+		}
+	}
+	return out
+}
+
+func (c sizeWalkCase) build(name string, raw []byte) rawCase {
+	m := append([]byte(nil), raw...)
+	c.f.patch(m, c.v)
+	return rawCase{fmt.Sprintf("sizewalk/%s/%s=%#x", name, c.f.name, c.v), m}
+}
+
 func safeToProto(raw []byte) (q *pb.QuoteV4, err error) {
 	defer world.Recover(&err)
 	qa, e := abi.QuoteToProto(raw)
@@ -271,6 +308,21 @@ func runC09(r *mc.Run) {
 		})
 		r.SectionDone(mc.Section{Name: "raw-structure/" + b.name, Evaluations: int64(done), Exhaustive: done == len(cases)})
 	}
+	for bi, b := range bases {
+		if bi > 0 && !r.Thorough() {
+			break
+		}
+		b := b
+		walk := sizeWalk(b.raw, b.reg)
+		done := r.Parallel(len(walk), func(i int) {
+			c := walk[i].build(b.name, b.raw)
+			if r.Want(c.id) {
+				c09JudgeRaw(r, c, "structure")
+			}
+		})
+		r.SectionDone(mc.Section{Name: "size-field-walk/" + b.name, Evaluations: int64(done), Exhaustive: done == len(walk)})
+	}
+	c09Retention(r, bases)
 	// (d) field identity: every single-bit mutant of a quote whose fields all differ.
 	for _, b := range bases {
 		n := len(b.raw) * 8
@@ -373,4 +425,123 @@ func runC09(r *mc.Run) {
 		}
 		r.Eval("partial/"+b.name, true, fmt.Sprintf("partial:%v", ok))
 	}
+}
+
+// c09Retention: every sequence of a fixed length over {parse quote k, serialise message k, serialise the
+// three sub-structures of message k}, keeping EVERY result; after each step every result obtained so far
+// must still be what it was when returned (a result that shares storage with a later call's scratch space
+// stops being the round trip of its input).
+func c09Retention(r *mc.Run, bases []*c01base) {
+	type item struct {
+		name string
+		raw  []byte
+		msg  *pb.QuoteV4
+	}
+	var items []item
+	addRaw := func(name string, raw []byte) {
+		p, err := ref.ParseQuote(raw)
+		if err != nil {
+			r.HarnessError("C09 retention: reference parser rejects %s: %v", name, err)
+			return
+		}
+		items = append(items, item{name, raw, expectedMessage(p)})
+	}
+	addRaw("A", bases[0].raw)
+	addRaw("B", bases[1].raw)
+	{
+		m := append([]byte(nil), bases[0].raw...)
+		for i := 48; i < 632; i++ {
+			m[i] ^= 0xee
+		}
+		addRaw("A-other-body", m)
+		w := world.Honest("T")
+		w.Spec.Auth = world.Fill("c09-long-auth", 700)
+		w.Parts = w.Spec.Parts()
+		addRaw("long-auth", w.Raw())
+		w2 := world.Honest("T")
+		w2.Spec.Auth = []byte{}
+		w2.Spec.Extra = world.Fill("c09-extra", 3)
+		w2.Parts = w2.Spec.Parts()
+		addRaw("short+extra", w2.Raw())
+	}
+	kinds := []string{"parse", "serialise", "serialise-parts"}
+	n := len(items) * len(kinds)
+	depth := 3
+	if r.Thorough() {
+		depth = 4
+	}
+	total := 1
+	for i := 0; i < depth; i++ {
+		total *= n
+	}
+	type kept struct {
+		what  string
+		bytes []byte
+		want  []byte
+		msg   *pb.QuoteV4
+		wantM *pb.QuoteV4
+	}
+	done := r.Parallel(total, func(idx int) {
+		seq := make([]int, depth)
+		x := idx
+		id := "retention/"
+		for i := depth - 1; i >= 0; i-- {
+			seq[i] = x % n
+			x /= n
+		}
+		for _, k := range seq {
+			id += kinds[k%len(kinds)] + "(" + items[k/len(kinds)].name + ");"
+		}
+		if !r.Want(id) {
+			return
+		}
+		var keep []kept
+		out := "intact"
+		for step, k := range seq {
+			it := items[k/len(kinds)]
+			switch kinds[k%len(kinds)] {
+			case "parse":
+				q, err := safeToProto(append([]byte(nil), it.raw...))
+				if err != nil {
+					r.Violate("retention:parse-fails", id, "parser rejects a valid quote: "+errStr(err), nil)
+					continue
+				}
+				keep = append(keep, kept{what: "message parsed from " + it.name, msg: q, wantM: it.msg})
+			case "serialise":
+				b, err := safeToBytes(proto.Clone(it.msg))
+				if err != nil {
+					r.Violate("retention:serialise-fails", id, "serialiser rejects a valid message: "+errStr(err), nil)
+					continue
+				}
+				keep = append(keep, kept{what: "bytes serialised from " + it.name, bytes: b, want: it.raw})
+			case "serialise-parts":
+				h, e1 := abi.HeaderToAbiBytes(it.msg.GetHeader())
+				b, e2 := abi.TdQuoteBodyToAbiBytes(it.msg.GetTdQuoteBody())
+				q, e3 := abi.EnclaveReportToAbiBytes(it.msg.GetSignedData().GetCertificationData().GetQeReportCertificationData().GetQeReport())
+				if e1 != nil || e2 != nil || e3 != nil {
+					r.Violate("retention:serialise-parts-fails", id, fmt.Sprintf("a sub-structure serialiser rejects a valid message: %v %v %v", e1, e2, e3), nil)
+					continue
+				}
+				rp, _ := ref.ParseQuote(it.raw)
+				keep = append(keep, kept{what: "header bytes of " + it.name, bytes: h, want: rp.Header},
+					kept{what: "TD body bytes of " + it.name, bytes: b, want: rp.Body},
+					kept{what: "QE report bytes of " + it.name, bytes: q, want: rp.QEReport})
+			}
+			for _, kp := range keep {
+				bad := false
+				if kp.msg != nil {
+					bad = !proto.Equal(kp.msg, kp.wantM)
+				} else {
+					bad = !bytes.Equal(kp.bytes, kp.want)
+				}
+				if bad {
+					r.Violate("retention:earlier-result-changed", id, fmt.Sprintf("after step %d the %s, returned by an earlier call, no longer equals what was returned", step+1, kp.what), map[string]any{"step": step + 1})
+					out = "changed!"
+				}
+			}
+		}
+		r.Eval(id, true, "retention:"+out)
+	})
+	r.SectionDone(mc.Section{Name: "result-retention-histories", Evaluations: int64(done), MaxDepth: depth, Exhaustive: done == total,
+		Note: fmt.Sprintf("alphabet of %d operations (%d quotes x %v), every sequence of length %d", n, len(items), kinds, depth)})
 }
